@@ -370,12 +370,12 @@ Print Assumptions rebind_no_users.
    Property, first sentence: "Building and reading training data never changes the labels."
    `lf.instances = lf.user_instances` (providers.process_lf, BaseDataset._get_lf_idx_list,
    CenteredInstanceDataset._get_instance_idx_list) is a store into the caller's LabeledFrame:
-   `labels_after false` (pinned and current tree, finding F110 not repaired) is `map (rebind uo)`,
-   `labels_after true` is proposed_fixes/C11_F110.diff.  The harness detects the variant by replaying
+   `labels_after false` (pinned tree, before fix 8c4b3a1 of finding F110; historic) is `map (rebind uo)`,
+   `labels_after true` is the CURRENT tree (fix 8c4b3a1 = proposed_fixes/C11_F110.diff).  The harness detects the variant by replaying
    corpus/C11/F110_*.json and compares the instance lists of the real label objects after
    construction with this model (run_ds2 / run_frame_after). *)
 
-(* full statement, REFUTED for the current tree: a predicted instance next to a user instance is
+(* full statement, REFUTED for the pinned tree (before fix 8c4b3a1; no code implements it any more): a predicted instance next to a user instance is
    dropped from the caller's frame *)
 Theorem labels_unchanged_refuted : exists uo frames, labels_after false uo frames <> frames.
 Proof. exact labels_unchanged_refuted_l. Qed.
@@ -399,7 +399,7 @@ Theorem labels_changed_iff : forall uo frames,
 Proof. exact labels_changed_iff_l. Qed.
 Print Assumptions labels_changed_iff.
 
-(* strongest true statement for the current tree: outside the selector the labels are untouched *)
+(* strongest true statement for the pinned tree (before fix 8c4b3a1): outside the selector the labels are untouched *)
 Theorem labels_unchanged_partial : forall uo frames,
   (forall fr, In fr frames -> selector_F110 uo fr = false) -> labels_after false uo frames = frames.
 Proof. exact labels_unchanged_partial_l. Qed.
